@@ -1,5 +1,6 @@
 /- Line-protocol handlers for the margins model (C20). -/
 import PandoraModel.Model.Margins
+import PandoraModel.Model.SaveConfig
 
 namespace Pandora.Driver.C20
 open Lean (Json)
@@ -62,9 +63,33 @@ def ops (j : Json) : Except String Json := do
   return mkObj [("results", Json.arr outs), ("margins", globalToJson g),
                 ("spec_global", m4ToJson (expectedGlobal g.cumulatives g.nonCumulatives))]
 
+/-- `C20.saved_config` (used by C19's and C20's `saved_eq_reported`): the dictionary `main` saves
+    (`SaveConfig.savedConfig`) for `check_conf`'s result `cfg` (wire format of `Model/JVal.lean`), the shapes of
+    the two images and the facts read off `main`.  The margins come from the model of the check callbacks
+    on the *checked pipeline dictionary* (`SaveConfig.stepCfgsOf`); the expected margins
+    (`SaveConfig.expectedMarginsJ`) are returned beside them. -/
+def savedConfig (j : Json) : Except String Json := do
+  let fj ← field j "facts"
+  let facts : Save.MainFacts :=
+    { writesRightDisp := ← field fj "writesRightDisp" >>= boolOfJson, addsMargins := ← field fj "addsMargins" >>= boolOfJson }
+  let runWrites ← boolOfJson (fieldD fj "runWritesIndicator" (Json.bool true))
+  let cfg ← field j "cfg" >>= dictOfJson
+  let rows ← field j "rows" >>= natOfJson
+  let cols ← field j "cols" >>= natOfJson
+  let rows2 ← natOfJson (fieldD j "rows2" (natToJson rows))
+  let cols2 ← natOfJson (fieldD j "cols2" (natToJson cols))
+  let expected : Json := match Dict.lookup cfg "pipeline" with
+    | some (.obj M) => jvalToJson (SaveConfig.expectedMarginsJ rows cols (SaveConfig.stepCfgsOf M))
+    | _ => Json.null
+  match SaveConfig.savedConfig facts runWrites cfg rows cols rows2 cols2 with
+  | none => return mkObj [("ok", Json.bool false), ("expected_margins", expected)]
+  | some saved =>
+    return mkObj [("ok", Json.bool true), ("saved", jvalToJson (.obj saved)), ("expected_margins", expected)]
+
 def handle (op : String) (j : Json) : Except String Json :=
   match op with
   | "C20.check" => check j
+  | "C20.saved_config" => savedConfig j
   | "C20.ops" => ops j
   | _ => throw s!"unknown op {op}"
 
